@@ -21,8 +21,9 @@ def main():
     try:
         for c in checks:
             t = time.time()
+            env = dict(os.environ, VERIF_EVIDENCE_DIR=os.path.join(ROOT, "_work", "evidence-seeded"))
             r = subprocess.run([sys.executable, os.path.join(ROOT, "tools", "vcheck.py"), c], cwd=ROOT, stdout=subprocess.PIPE,
-                               stderr=subprocess.STDOUT, text=True)
+                               stderr=subprocess.STDOUT, text=True, env=env)
             lines = [l for l in r.stdout.split("\n") if l.startswith("VIOLATION") or l.startswith("  violation") or
                      l.startswith("  model and") or l.startswith("  proof") or l.startswith("INFRA")]
             print("%s on %s: exit %d (%.0fs)" % (c, seed, r.returncode, time.time() - t))
